@@ -180,7 +180,7 @@ func cmdCheck(args []string) int {
 	var samples []interface{}
 	tot := struct {
 		states, transitions, validated, feasQ, assertQ, assertSat, assertUnsat, assertUnknown, solverErrors, solverUnknown, solverFallbacks, crossChecked, crossDisagree int
-		solverTime                                                                                                         time.Duration
+		solverTime                                                                                                                                                       time.Duration
 	}{}
 	writeEvidence := func(status string) {
 		if os.Getenv("GOSYM_NO_EVIDENCE") != "" {
@@ -377,7 +377,13 @@ func cmdCheck(args []string) int {
 		var o interp.NativeOutcome
 		reproduced, ran := false, false
 		var err error
-		for try := 0; try < 6 && !reproduced; try++ {
+		tries := 6
+		if len(pv.h.MapOrders) > 0 {
+			// the harness explores map iteration orders the native run
+			// cannot be steered into: give the random order more chances
+			tries = 40
+		}
+		for try := 0; try < tries && !reproduced; try++ {
 			var outs []interp.NativeOutcome
 			outs, err = sess.RunNative(pv.h.Pkg, cases, rdir)
 			if err != nil || len(outs) != 1 {
@@ -454,9 +460,9 @@ func cmdReplay(args []string) int {
 	if b, err := os.ReadFile(filepath.Join(dir, "counterexample.json")); err == nil {
 		json.Unmarshal(b, &meta)
 	}
-	// up to six runs: a counterexample may need a particular Go map iteration
+	// up to forty runs: a counterexample may need a particular Go map iteration
 	// order, which is random per run
-	for try := 0; try < 6; try++ {
+	for try := 0; try < 40; try++ {
 		cmd := exec.Command("/bin/sh", filepath.Join(dir, "replay.sh"))
 		out, err := cmd.CombinedOutput()
 		if try == 0 {
